@@ -118,12 +118,21 @@ theorem optional_survives (O : Oracles) (opts : DeserOpts) (g : FieldDecl) (v : 
     (hn : v.isNone = false) (hc : conforms O g v = true) (hf : inFrag O g v = true) :
     ∃ j, ser O (.anyOf [.noneF, g]) v = .ok j ∧ isJson j = true
       ∧ deser O opts false (.anyOf [.noneF, g]) j = .ok v := by
-  have hf' : inFrag O (.anyOf [.noneF, g]) v = true := by
-    simp [inFrag, inFragOpt, isNoneDecl, hn, hc, hf]
-  have hc' : conforms O (.anyOf [.noneF, g]) v = true := by
-    simp [conforms, conformsAny, hc]
-  rcases round_trip O opts _ v hc' hf' with ⟨j, h1, h2, _, h4, _⟩
-  exact ⟨j, h1, h2, h4⟩
+  rcases round_trip O opts g v hc hf with ⟨j, h1, h2, h3, h4, h5⟩
+  rcases rt_optional O opts g v j hn (shallowOk_of_frag O g v hc hf) h1 h2 h3 h4 h5 with ⟨j', a, b, _, d, _⟩
+  exact ⟨j', a, b, d⟩
+
+/-- **AnyOf over distinguishable options** (`Optional[X]` in either order, `AnyOf[A, B, None]`, unions of
+    scalars with collections or classes, at any depth since `inFrag` carries the same clause): the value is
+    serialized by the option it belongs to, the document is read back by that option and the constructor
+    stores it unchanged — provided every option listed before it fails its shallow check and its
+    validation on the value and cannot accept a document of the JSON type produced (`inFragAny`) -/
+theorem anyof_round_trip_partial (O : Oracles) (opts : DeserOpts) (fs : List FieldDecl) (v : PyVal)
+    (hf : inFragAny O fs v = true) :
+    ∃ j, ser O (.anyOf fs) v = .ok j ∧ isJson j = true
+      ∧ deser O opts false (.anyOf fs) j = .ok v ∧ validate O (.anyOf fs) v = .ok v := by
+  rcases round_trip_any O opts fs v hf with ⟨j, h1, h2, _, h4, h5⟩
+  exact ⟨j, by simpa [ser] using h1, h2, by simp [deser, h4], by simpa [validate] using h5⟩
 
 /-! ### falsy values survive; non-vacuity -/
 
@@ -191,6 +200,31 @@ theorem set_map_round_trip_example :
             | .ok (.inst "Coll" [("s", .set false [.int 0, .int 2]), ("m", .dict [(.str "", .list []), (.str "k", .list [.bool false])])]) => true
             | _ => false)
         | .error _ => false) = true := by
+  decide
+
+/-- `U(f: AnyOf[Enum[Color], Integer, None], xs: Array[Optional[String]], m: AnyOf[Array[Integer], String])`:
+    the enum member is serialized by the FIRST option although two non-None options and None are listed, a
+    None element of the array survives, and a string is told from an array -/
+def exUnion : FieldDecl :=
+  .struct { name := "U", required := [], accepts := ["U"], addl := false }
+    [("f", .anyOf [.enumCls "Color" ["RED", "BLUE"], .integer {}, .noneF]),
+     ("xs", .seqOf .list (.anyOf [.string none none none, .noneF]) {}),
+     ("m", .anyOf [.seqOf .list (.integer {}) {}, .string none none none])] []
+def exUnionInst : PyVal :=
+  .inst "U" [("f", .enumv "Color" "RED"), ("xs", .list [.str "a", .none]), ("m", .str "")]
+
+theorem anyof_round_trip_example :
+    inFrag exO exUnion exUnionInst = true
+    ∧ (match serialize exO exUnion exUnionInst with
+        | .ok (.dict [(.str "f", .str "RED"), (.str "xs", .list [.str "a", .none]), (.str "m", .str "")]) => true
+        | _ => false) = true
+    ∧ (match serialize exO exUnion exUnionInst with
+        | .ok j => (match deserialize exO {} exUnion j with
+            | .ok (.inst "U" [("f", .enumv "Color" "RED"), ("xs", .list [.str "a", .none]), ("m", .str "")]) => true
+            | _ => false)
+        | .error _ => false) = true
+    -- an AnyOf of indistinguishable options is outside the fragment: a set under AnyOf[Array, Set]
+    ∧ inFragAny exO [.seqOf .list (.integer {}) {}, .setOf false (.integer {}) {}] (.set false [.int 1]) = false := by
   decide
 
 theorem class_round_trip_example :
